@@ -318,7 +318,7 @@ func workload(r *mon.Run, idx int, f func(*call)) error {
 	default:
 		topo = simtopo.Generate(rng, simtopo.Params{MaxASes: 6 + rng.IntN(7), CorePeering: rng.IntN(3) == 0})
 	}
-	bp := simbeacon.Params{Now: refNow, MaxAge: 2 * time.Hour, ExpTimeMin: 3, ExpTimeMax: 250}
+	bp := simbeacon.Params{Now: refNow, MaxAge: 2 * time.Hour, ExpTimeMin: 0, ExpTimeMax: 255}
 	net, err := simbeacon.New(topo, bp)
 	if err != nil {
 		return err
